@@ -600,7 +600,19 @@ def check_property(prop, tier, seed, jobs=4):
     for famname in pc.get("bounded", []):
         try:
             import replay as replay_mod
-            br = replay_mod.run_family(famname, REPO, seed)
+            # quick: the inputs of one seed; thorough: 16 seeds (the pseudo-random part of a family differs per seed)
+            seeds = [seed] if tier == "quick" else list(range(seed, seed + 16))
+            br = None
+            total = 0
+            for sd in seeds:
+                b1 = replay_mod.run_family(famname, REPO, sd)
+                total += b1["inputs"]
+                br = b1
+                if b1["counterexample"]:
+                    break
+            br = dict(br)
+            br["inputs"] = total
+            br["seeds"] = seeds
         except Exception as e:
             bounded.append({"family": famname, "result": "unavailable: %s" % str(e)[:300]})
             continue
